@@ -242,6 +242,8 @@ def configs(tier):
         for g in range(3):
             add("spline/n3/%s/init/grid%d" % (bc, g), spline, n=3, bc=bc, grid=g)
     add("spline/n3/natural/call/grid1", spline, n=3, bc="natural", y_at="call", grid=1)
+    # the minimum number of knots with the default boundary condition (known finding: raises, see known_findings.json)
+    add("spline/n3/not-a-knot/init/grid1", spline, n=3, bc="not-a-knot", grid=1)
     add("spline/n3/periodic/call/batch/grid0", spline, n=3, bc="periodic", y_at="call", batch=True, grid=0)
     for bc in ("natural", "not-a-knot", "periodic", "clamped"):
         for g in range(2):
